@@ -66,6 +66,8 @@ class Ctx:
         self.py = self.facts.crate('oxmpl_py')
         self.js = self.facts.crate('oxmpl_js')
         self._callgraph = {}
+        from . import planner as _planner
+        _planner.set_ctx(self)
 
     def fn(self, body):
         k = (body.crate.name, body.crate.is_test, body.path)
